@@ -74,6 +74,15 @@ def rel_state(la, lb, sidx, sym_is_end, alloc_b, stats, timeout_ms=30000, idxmap
         la.add_chunk(ma, 1, symbols=[b]); lb.add_chunk(mb, 1, symbols=[b])
         exa = la.call_feed(ma, 1, solver, inv, sx, max_steps=ms)
         exb = lb.call_feed(mb, 1, solver, inv, sx, max_steps=ms)
+    # inputs on which the program's own expressions have undefined C behaviour or read unspecified buffer content are outside the claim
+    try:
+        mach = absm.Machine(la.comp.post, la.layout, strict_done=la.strict, unsafe_index=la.cfg['UNSAFE_STRING_INDEXING'])
+        ap = symx.explore(lambda ctx: mach.dispatch(ctx, la.comp.post.states[sidx], (absm.End if sym_is_end else b), data), solver, assumptions=inv, stats=sx, max_paths=3000)
+        ubg = [z3.And(*pc, r.ub.any()) for pc, r in ap]
+        if ubg:
+            inv = inv + [z3.Not(z3.Or(*ubg))]
+    except absm.Unsupported:
+        pass
     d['queries'] += sx['queries']; d['solver_time'] += sx['solver_time']
     d['cov']['states'] += 1
     symname = 'end' if sym_is_end else 'byte'
